@@ -483,15 +483,29 @@ func c11Milestones(c *Ctx, m *eventModel) {
 					continue
 				}
 				// does the loop look at the event type at all? (a consumer that only forwards events is not the milestone builder)
+				// (directly or in a function of the package the loop body hands the event to)
 				looks := false
-				ast.Inspect(loop.Body, func(n ast.Node) bool {
-					if sel, ok := n.(*ast.SelectorExpr); ok {
-						if tv, ok := info.Types[sel]; ok && tv.Type == types.Type(m.eventType) {
-							looks = true
+				seenFn := map[*ast.FuncDecl]bool{}
+				var look func(body ast.Node, depth int)
+				look = func(body ast.Node, depth int) {
+					ast.Inspect(body, func(n ast.Node) bool {
+						switch x := n.(type) {
+						case *ast.SelectorExpr:
+							if tv, ok := info.Types[x]; ok && tv.Type == types.Type(m.eventType) {
+								looks = true
+							}
+						case *ast.CallExpr:
+							if fn, ok := calleeOf(info, x).(*types.Func); ok && fn.Pkg() == pk.Types && depth < 3 {
+								if cd, cpk := p.findDecl(fn); cd != nil && cpk == pk && cd.Body != nil && !seenFn[cd] {
+									seenFn[cd] = true
+									look(cd.Body, depth+1)
+								}
+							}
 						}
-					}
-					return true
-				})
+						return true
+					})
+				}
+				look(loop.Body, 0)
 				if !looks {
 					continue
 				}
@@ -525,7 +539,7 @@ func c11CheckConsumer(c *Ctx, m *eventModel, pk *packages.Package, key string, f
 	}
 	run := func(ev string) effect {
 		var eff effect
-		proto := &symWalker{}
+		proto := &symWalker{Inline: samePkgInline(pk)}
 		proto.AssumeFn = func(s *Sym) *Sym {
 			if s.K == symField && s.Type != nil && s.Type == types.Type(m.eventType) && s.X != nil && s.X.K == symElem {
 				return &Sym{K: symConst, C: constant.MakeInt64(byName[ev]), Type: m.eventType}
